@@ -16,6 +16,8 @@ import Proofs.Respects
 import Proofs.Structure
 import Proofs.RangeOps
 import Proofs.ReplaceRange
+import Proofs.IsoFlows
+import Props.C09
 namespace PM.C18
 open PM
 
@@ -553,5 +555,238 @@ example :
     replaceRangeCalls S doc 4 5 ⟨[p [120]], 1, 1⟩ = some [(4, 5, ⟨[p [120]], 1, 1⟩)] ∧
     replaceRangeWithTarget S doc 3 3 row = some (1, 1) ∧
     replaceRangeWithCalls S doc 3 3 row = some [(1, 1, ⟨[row], 0, 0⟩)] := by decide
+
+/-! ## The editor-level flows: a selection inside an isolating node → `block_range` → lift / split / wrap
+
+The theorems above quantify over ranges; an editor command does not pick a range, it asks the library for
+one: `$from.block_range($to)` for the selection, then `lift_target(range)` and `tr.lift(range, target)` (or
+`find_wrapping` and `tr.wrap`, or `can_split` and `tr.split`).  The theorems below follow that flow
+through the models (`blockRange` PM/Resolve.lean, specs Props/C09.lean; `liftTarget` / `canSplit`
+PM/Structure.lean; `liftStep` / `splitStep` / `wrapStep` PM/StructEdit.lean, all tied exactly).
+
+Setting, as in `deleteRange_insideNode`: `f ≤ t` resolve to `rf`, `rt`; their depth-`k` ancestor (`1 ≤ k`)
+is the same node (`rf.start k = rt.start k`); it occupies `[a, b)` with `a = rf.start k − 1` its open token
+and `b − 1 = rf.end_ k` its close token, so `a < f` and `t < b` hold by construction.  -/
+
+/-- a non-root ancestor's content window lies strictly inside the document -/
+theorem ancestor_window_in_doc {doc : Node} {pos : Nat} {r : RPos} (hr : doc.resolve pos = some r)
+    (k : Nat) (hk1 : 1 ≤ k) (hk : k ≤ r.depth) :
+    1 ≤ r.start k ∧ r.end_ k + 1 ≤ fsize doc.kids := by
+  have R := resolve_resolved hr
+  have n := R.nestW 0 k (by omega) hk
+  have e0 : r.end_ 0 = fsize doc.kids := by simp [RPos.end_, RPos.start, R.node_zero]
+  have s0 : r.start 0 = 0 := by simp [RPos.start]
+  omega
+
+/-- when `block_range` starts its search at or below the ancestor: a position deeper than the node
+    always does; a position directly in the node's content does when the selection is not collapsed
+    and the node does not hold inline content (`brShrink`, Props/C09.lean) -/
+theorem brShrink_deep (S : Schema) (f t : Nat) (rf : RPos) (k : Nat) (hkf : k ≤ rf.depth)
+    (h : k < rf.depth ∨ (f < t ∧ (S.nodeType (S.tyOf (rf.node k))).inlineContent = false)) :
+    k + C09.brShrink S rf f t ≤ rf.depth := by
+  have hc : C09.brShrink S rf f t ≤ 1 := by unfold C09.brShrink; split <;> omega
+  rcases h with h | ⟨hlt, hinl⟩
+  · omega
+  · rcases Nat.lt_or_ge k rf.depth with h | h
+    · omega
+    · have hk : k = rf.depth := by omega
+      have : C09.brShrink S rf f t = 0 := by
+        unfold C09.brShrink RPos.parent
+        rw [← hk, hinl]
+        have : (f == t) = false := by simp; omega
+        simp [this]
+      omega
+
+/-- **the block range of a selection inside a node lies inside that node's content** (for every common
+    ancestor, isolating or not): with `k + brShrink ≤ depth(f)` — the search of `block_range` starts
+    at or below the node — the answer `(d, s, e)` has `d ≥ k` and
+    `start(k) ≤ s ≤ f`, `t ≤ e ≤ end(k)`.  (The seeded `<` for `<=` at the end boundary answered
+    depth `k − 1` for a selection reaching the end of the node's content: the node itself.) -/
+theorem blockRange_inside_ancestor (S : Schema) (doc : Node) (f t : Nat) (hft : f ≤ t) (rf rt : RPos)
+    (hf : doc.resolve f = some rf) (ht : doc.resolve t = some rt)
+    (k : Nat) (hkf : k ≤ rf.depth) (hkt : k ≤ rt.depth) (hsame : rf.start k = rt.start k)
+    (hdeep : k + C09.brShrink S rf f t ≤ rf.depth) :
+    ∃ d s e, blockRange S doc f t = .ok (some (d, s, e)) ∧
+      k ≤ d ∧ d ≤ rf.depth ∧ d ≤ rt.depth ∧
+      rf.before (d + 1) = some s ∧ rt.after (d + 1) = some e ∧
+      rf.start k ≤ s ∧ s ≤ f ∧ t ≤ e ∧ e ≤ rf.end_ k := by
+  have Rf := resolve_resolved hf
+  have Rt := resolve_resolved ht
+  have pf := Rf.pos_in k hkf
+  have pt := Rt.pos_in k hkt
+  obtain ⟨_, _, he, _⟩ := same_ancestors Rf Rt k (rf.start k) hkf hkt (Nat.le_refl _) (by omega)
+    (by omega) (by omega) k (Nat.le_refl _)
+  obtain ⟨⟨x, hx⟩, hsome, hnone, _⟩ := C09.blockRange_depth_spec S doc f t hft rf hf Rt.le
+  cases x with
+  | none => exact absurd (by omega) ((hnone.mp hx) k hdeep)
+  | some x =>
+    obtain ⟨d, s, e⟩ := x
+    obtain ⟨_, _, _, _, hmax⟩ := hsome d s e hx
+    have hkd : k ≤ d := by
+      rcases Nat.lt_or_ge d k with hlt | hge
+      · exact absurd (by omega) (hmax k hlt hdeep)
+      · exact hge
+    obtain ⟨b1, b2, _, _, b5, b6, _, _, b9, b10, b11, b12, _⟩ :=
+      C09.blockRange_bounds_spec S doc f t hft rf rt hf ht d s e hx
+    have n := Rf.nestW k d hkd b1
+    exact ⟨d, s, e, hx, hkd, b1, b2, b5, b6, by omega, b10, b11, by omega⟩
+
+/-- … with the node's own positions: for the node occupying `[a, b)` (`a = start(k) − 1` its open
+    token, `b − 1 = end(k)` its close token) every answer of `block_range` has depth `≥ k` and
+    `a + 1 ≤ start`, `end ≤ b − 1` -/
+theorem blockRange_inside_isolating (S : Schema) (doc : Node) (f t : Nat) (hft : f ≤ t) (rf rt : RPos)
+    (hf : doc.resolve f = some rf) (ht : doc.resolve t = some rt)
+    (k : Nat) (hk1 : 1 ≤ k) (hkf : k ≤ rf.depth) (hkt : k ≤ rt.depth) (hsame : rf.start k = rt.start k)
+    (hdeep : k + C09.brShrink S rf f t ≤ rf.depth)
+    (d s e : Nat) (h : blockRange S doc f t = .ok (some (d, s, e))) :
+    k ≤ d ∧ (rf.start k - 1) + 1 ≤ s ∧ e ≤ (rf.end_ k + 1) - 1 ∧ s ≤ f ∧ t ≤ e := by
+  obtain ⟨hs1, _⟩ := ancestor_window_in_doc hf k hk1 hkf
+  obtain ⟨d', s', e', h', r1, _, _, _, _, r2, r3, r4, r5⟩ :=
+    blockRange_inside_ancestor S doc f t hft rf rt hf ht k hkf hkt hsame hdeep
+  rw [h'] at h
+  simp only [Except.ok.injEq, Option.some.injEq, Prod.mk.injEq] at h
+  obtain ⟨rfl, rfl, rfl⟩ := h
+  exact ⟨r1, by omega, by omega, r3, r4⟩
+
+/-- **the node-level case** — the search starts *above* the node (`depth(f) = k` and `brShrink = 1`: a
+    collapsed selection directly in the node's content, or any selection directly in a node that holds
+    inline content): the block range is the node itself, at depth `k − 1`, from before its open token
+    to after its close token.  This is the documented rule ("the range around the parent block"), a
+    range *around* the node: lifting or wrapping it moves or wraps the isolating node as a whole. -/
+theorem blockRange_node_level_is_node (S : Schema) (doc : Node) (f t : Nat) (hft : f ≤ t) (rf rt : RPos)
+    (hf : doc.resolve f = some rf) (ht : doc.resolve t = some rt)
+    (k : Nat) (hk1 : 1 ≤ k) (hkf : rf.depth = k) (hkt : k ≤ rt.depth) (hsame : rf.start k = rt.start k)
+    (hc : C09.brShrink S rf f t = 1) :
+    blockRange S doc f t = .ok (some (k - 1, rf.start k - 1, rf.end_ k + 1)) := by
+  have Rf := resolve_resolved hf
+  have Rt := resolve_resolved ht
+  have pt := Rt.pos_in k hkt
+  have pf := Rf.pos_in k (by omega)
+  obtain ⟨_, _, he, _⟩ := same_ancestors Rf Rt k (rf.start k) (by omega) hkt (Nat.le_refl _) (by omega)
+    (by omega) (by omega) k (Nat.le_refl _)
+  obtain ⟨⟨x, hx⟩, hsome, _, hnone⟩ := C09.blockRange_depth_spec S doc f t hft rf hf Rt.le
+  cases x with
+  | none => have := (hnone.mp hx).1; omega
+  | some x =>
+    obtain ⟨d, s, e⟩ := x
+    obtain ⟨_, hdc, _, _, hmax⟩ := hsome d s e hx
+    have n := Rf.nestW (k - 1) k (by omega) (by omega)
+    have hd : d = k - 1 := by
+      rcases Nat.lt_or_ge d (k - 1) with hlt | hge
+      · exact absurd (by omega) (hmax (k - 1) hlt (by omega))
+      · omega
+    obtain ⟨_, _, _, _, _, _, b7, b8, _⟩ :=
+      C09.blockRange_bounds_spec S doc f t hft rf rt hf ht d s e hx
+    rw [if_neg (by omega)] at b7 b8
+    rw [hx, hd, b7, b8, hd, show k - 1 + 1 = k by omega, he]
+
+/-- **collapsed selection directly in the node's content**: `$pos.block_range()` is the node itself -/
+theorem blockRange_collapsed_is_node (S : Schema) (doc : Node) (f : Nat) (rf : RPos)
+    (hf : doc.resolve f = some rf) (k : Nat) (hk1 : 1 ≤ k) (hkf : rf.depth = k) :
+    blockRange S doc f f = .ok (some (k - 1, rf.start k - 1, rf.end_ k + 1)) :=
+  blockRange_node_level_is_node S doc f f (Nat.le_refl _) rf rf hf hf k hk1 hkf (by omega) rfl
+    (by simp [C09.brShrink])
+
+/-- a step that satisfies the monitor `insideNode` for the depth-`k` ancestor of a resolved position
+    leaves every token up to and including that node's open token and from its close token on
+    unchanged (`inside_preserves_outside` with the node's positions spelled out) -/
+theorem inside_ancestor_preserves_outside (S : Schema) (doc doc' : Node) (pos : Nat) (r : RPos)
+    (hr : doc.resolve pos = some r) (k : Nat) (hk1 : 1 ≤ k) (hk : k ≤ r.depth) (st : Step)
+    (hm : insideNode (r.start k - 1) (r.end_ k + 1) st = true)
+    (hwf : ∀ f t gf gt sl i c, st = .replaceAround f t gf gt sl i c → sl.wf = true ∧ (i : Int) ≤ sl.size ∧ f ≤ gf ∧ gf ≤ gt ∧ gt ≤ t)
+    (h : S.apply st doc = .ok doc') :
+    (ftoks doc'.kids).take (r.start k) = (ftoks doc.kids).take (r.start k) ∧
+    (ftoks doc'.kids).drop (r.end_ k + fsize doc'.kids - fsize doc.kids) = (ftoks doc.kids).drop (r.end_ k) ∧
+    fsize doc.kids ≤ r.end_ k + fsize doc'.kids := by
+  obtain ⟨h1, h2⟩ := ancestor_window_in_doc hr k hk1 hk
+  have := inside_preserves_outside S doc doc' (r.start k - 1) (r.end_ k + 1) st h2 hm hwf h
+  rw [show r.start k - 1 + 1 = r.start k by omega, show r.end_ k + 1 - 1 = r.end_ k by omega] at this
+  exact this
+
+/-- **lift of a selection inside an isolating node**: the selection `f ≤ t` lies inside the content of
+    an isolating node (depth `k`; not at node level, `hdeep`), the range is the library's own
+    `block_range`, the target its own `lift_target`, the step the one `tr.lift(range, target)` builds.
+    Then the target stays at or below the node (`k ≤ target`), the step's outer range lies strictly
+    between the node's open and close token, and if it applies, every token up to and including the
+    node's open token and from its close token on is unchanged. -/
+theorem lift_of_selection_inside (S : Schema) (doc doc' : Node) (f t : Nat) (hft : f ≤ t) (rf rt : RPos)
+    (hf : doc.resolve f = some rf) (ht : doc.resolve t = some rt)
+    (k : Nat) (hk1 : 1 ≤ k) (hkf : k ≤ rf.depth) (hkt : k ≤ rt.depth) (hsame : rf.start k = rt.start k)
+    (hiso : S.isolating (rf.node k) = true)
+    (hdeep : k + C09.brShrink S rf f t ≤ rf.depth)
+    (d s e : Nat) (hbr : blockRange S doc f t = .ok (some (d, s, e)))
+    (tg : Nat) (htg : liftTarget S doc f t d = some (some tg))
+    (st : Step) (hst : liftStep doc f t d tg = .ok st)
+    (h : S.apply st doc = .ok doc') :
+    k ≤ tg ∧ tg < d ∧
+    insideNode (rf.start k - 1) (rf.end_ k + 1) st = true ∧
+    (ftoks doc'.kids).take (rf.start k) = (ftoks doc.kids).take (rf.start k) ∧
+    (ftoks doc'.kids).drop (rf.end_ k + fsize doc'.kids - fsize doc.kids) = (ftoks doc.kids).drop (rf.end_ k) ∧
+    fsize doc.kids ≤ rf.end_ k + fsize doc'.kids := by
+  have Rf := resolve_resolved hf
+  have Rt := resolve_resolved ht
+  have pf := Rf.pos_in k hkf
+  have pt := Rt.pos_in k hkt
+  obtain ⟨_, _, he, _⟩ := same_ancestors Rf Rt k (rf.start k) hkf hkt (Nat.le_refl _) (by omega)
+    (by omega) (by omega) k (Nat.le_refl _)
+  obtain ⟨hkd, _⟩ := blockRange_inside_isolating S doc f t hft rf rt hf ht k hk1 hkf hkt hsame hdeep d s e hbr
+  have hktg := liftTarget_stays_inside S doc f t d tg rf rt hf ht htg k hkd hiso
+  obtain ⟨htd, hdf, hdt, _⟩ := liftTarget_not_across_isolating S doc f t d tg rf rt hf ht htg
+  simp only [liftStep, hf, ht] at hst
+  obtain ⟨_, _, F, T, gs, ge, sl, i, rfl, _, _, w1, w2, w3, w4, w5, w6, w7⟩ :=
+    liftStepR_inside hf ht hft d tg (by omega) st hst
+  have nf := Rf.nestW k tg hktg (by omega)
+  have nt := Rt.nestW k tg hktg (by omega)
+  obtain ⟨hs1, _⟩ := ancestor_window_in_doc hf k hk1 hkf
+  have hm : insideNode (rf.start k - 1) (rf.end_ k + 1) (.replaceAround F T gs ge sl i true) = true := by
+    simp only [insideNode, Bool.and_eq_true, decide_eq_true_eq]
+    omega
+  refine ⟨hktg, htd, hm, ?_⟩
+  refine inside_ancestor_preserves_outside S doc doc' f rf hf k hk1 hkf _ hm ?_ h
+  intro f' t' gf gt sl' i' c e'
+  simp only [Step.replaceAround.injEq] at e'
+  obtain ⟨rfl, rfl, rfl, rfl, rfl, rfl, _⟩ := e'
+  exact ⟨w1, w2, w3, w4, w5⟩
+
+/-- **wrap of a selection inside an isolating node**: the range is the library's own `block_range` of
+    the selection, the wrappers are arbitrary (in particular those `find_wrapping(range, type)` answers);
+    the step `tr.wrap(range, wrappers)` builds covers exactly the range, which lies inside the node's
+    content, so if it applies, everything up to and including the node's open token and from its close
+    token on is unchanged -/
+theorem wrap_of_selection_inside (S : Schema) (doc doc' : Node) (f t : Nat) (hft : f ≤ t) (rf rt : RPos)
+    (hf : doc.resolve f = some rf) (ht : doc.resolve t = some rt)
+    (k : Nat) (hk1 : 1 ≤ k) (hkf : k ≤ rf.depth) (hkt : k ≤ rt.depth) (hsame : rf.start k = rt.start k)
+    (hdeep : k + C09.brShrink S rf f t ≤ rf.depth)
+    (d s e : Nat) (hbr : blockRange S doc f t = .ok (some (d, s, e)))
+    (ws : List (TypeId × Attrs))
+    (st : Step) (hst : wrapStep S doc f t d ws = .ok st)
+    (h : S.apply st doc = .ok doc') :
+    (∃ sl, st = .replaceAround s e s e sl ws.length true) ∧
+    insideNode (rf.start k - 1) (rf.end_ k + 1) st = true ∧
+    (ftoks doc'.kids).take (rf.start k) = (ftoks doc.kids).take (rf.start k) ∧
+    (ftoks doc'.kids).drop (rf.end_ k + fsize doc'.kids - fsize doc.kids) = (ftoks doc.kids).drop (rf.end_ k) ∧
+    fsize doc.kids ≤ rf.end_ k + fsize doc'.kids := by
+  obtain ⟨d', s', e', h', _, _, _, q1, q2, q3, _, _, q4⟩ :=
+    blockRange_inside_ancestor S doc f t hft rf rt hf ht k hkf hkt hsame hdeep
+  rw [h'] at hbr
+  simp only [Except.ok.injEq, Option.some.injEq, Prod.mk.injEq] at hbr
+  obtain ⟨rfl, rfl, rfl⟩ := hbr
+  simp only [wrapStep, hf, ht] at hst
+  obtain ⟨s2, e2, sl, rfl, p1, p2, w1, w2, w3⟩ := wrapStepR_inside S hf ht hft d' ws st hst
+  rw [q1] at p1
+  rw [q2] at p2
+  simp only [Option.some.injEq] at p1 p2
+  subst p1 p2
+  obtain ⟨hs1, _⟩ := ancestor_window_in_doc hf k hk1 hkf
+  have hm : insideNode (rf.start k - 1) (rf.end_ k + 1) (.replaceAround s' e' s' e' sl ws.length true) = true := by
+    simp only [insideNode, Bool.and_eq_true, decide_eq_true_eq]
+    omega
+  refine ⟨⟨sl, rfl⟩, hm, ?_⟩
+  refine inside_ancestor_preserves_outside S doc doc' f rf hf k hk1 hkf _ hm ?_ h
+  intro f' t' gf gt sl' i' c e'
+  simp only [Step.replaceAround.injEq] at e'
+  obtain ⟨rfl, rfl, rfl, rfl, rfl, rfl, _⟩ := e'
+  exact ⟨w1, w2, Nat.le_refl _, w3, Nat.le_refl _⟩
+
 
 end PM.C18
